@@ -1,0 +1,47 @@
+// Copyright 2020-2025 Buf Technologies, Inc.
+//
+// Licensed under the Apache License, Version 2.0 (the "License");
+// you may not use this file except in compliance with the License.
+// You may obtain a copy of the License at
+//
+//      http://www.apache.org/licenses/LICENSE-2.0
+//
+// Unless required by applicable law or agreed to in writing, software
+// distributed under the License is distributed on an "AS IS" BASIS,
+// WITHOUT WARRANTIES OR CONDITIONS OF ANY KIND, either express or implied.
+// See the License for the specific language governing permissions and
+// limitations under the License.
+
+//go:build verif
+
+package buf
+
+// Contracts for the gocv verifier (see /verif/DESIGN.md), author ca-W. Comment-only.
+//
+// C20, the error -> exit status mapping at the top of the CLI. Every command's error passes through wrapError (closure 1
+// of newErrorInterceptor) before app.GetExitCode (verified in private/pkg/app: 0 exactly for nil; the code of an appError
+// in the chain; else 1) turns it into the process status.
+//  * "status 0 exactly when there is nothing to report": wrapError returns nil exactly for nil.
+//  * "an import could not be found" => 100: an ImportNotExistError anywhere in the chain is re-wrapped as an appError
+//    with bufctl.ExitCodeFileAnnotation (100) before the "Failure: %w" prefix is added.
+// NOT provable here: that the status of the wrapped error EQUALS 100 / equals the status of the error that came in
+// (ErrFileAnnotation passes because its message is empty; others through "Failure: %w"): this needs the chain semantics of
+// fmt.Errorf("%w") and "errors.As finds the FIRST match", which the trusted contracts of fmt.Errorf / errors.As do not
+// carry (fmt.Errorf: `ensures r != nil` only).
+//@ func wrapError(err) (r)
+//@   property C20
+//@   modifies heap
+//@   ensures nil-exactly-for-nil: (r == nil) <==> (err == nil)
+//@   assert before "return appFailureError(err)" import-not-found-is-status-100: importNotExistError != nil ==> typeOf(err) == typeId(*app.appError) && cast(*app.appError, err).exitCode == 100
+//
+//@ func appFailureError(err) (r)
+//@   property C20
+//@   ensures r != nil
+//
+// The interceptor never turns a failed command into a successful one nor a successful one into a failure
+// (closure 1 is the wrapped command; a call through `next` raises ghost.fail exactly when it returns an error).
+//@ func newErrorInterceptor() (r)
+//@   property C20
+//@   modifies heap, ghost.fail, ghost.wfail
+//@   closure 0 ensures true
+//@   closure 1 ensures verdict-kept: !old(ghost.fail) ==> ((r != nil) <==> ghost.fail)
